@@ -64,9 +64,8 @@
 //!
 //! ```text
 //! Bits    Field       Description
-//! 0-12    offset      Offset to node data within page
-//! 13-14   status      0=free, 1=active, 2=deleted
-//! 15      reserved    Reserved bit
+//! 0-13    offset      Offset to node data within page (pages are 16 KB)
+//! 14-15   status      0=free, 1=active, 2=deleted
 //! 16-31   size        Size of node data in bytes
 //! ```
 //!
@@ -337,7 +336,7 @@ impl SlotEntry {
 
     pub fn encode(&self) -> [u8; 4] {
         let mut bytes = [0u8; 4];
-        let offset_and_status = (self.offset & 0x1FFF) | ((self.status as u16) << 13);
+        let offset_and_status = (self.offset & 0x3FFF) | ((self.status as u16) << 14);
         bytes[0..2].copy_from_slice(&offset_and_status.to_le_bytes());
         bytes[2..4].copy_from_slice(&self.size.to_le_bytes());
         bytes
@@ -345,8 +344,8 @@ impl SlotEntry {
 
     pub fn decode(bytes: &[u8]) -> Self {
         let offset_and_status = u16::from_le_bytes([bytes[0], bytes[1]]);
-        let offset = offset_and_status & 0x1FFF;
-        let status = SlotStatus::from_byte(((offset_and_status >> 13) & 0x3) as u8);
+        let offset = offset_and_status & 0x3FFF;
+        let status = SlotStatus::from_byte(((offset_and_status >> 14) & 0x3) as u8);
         let size = u16::from_le_bytes([bytes[2], bytes[3]]);
         Self {
             offset,
